@@ -8,7 +8,12 @@ from checks import frame
 def check(run):
     run.assumptions += ['allocation never fails', 'Engine B claims use real arithmetic for double: "finite" is claimed as "no domain error on any success path" plus the value identities; overflow of exp() of an interpolated logarithm is outside',
                         'exported functions without any obligation are listed under coverage.uncovered_functions (no verdict is claimed for them)']
-    kept = frame.sweep(run, 'C03')
+    import re
+    def keep(oid):
+        # quick tier: the long value identities of the structure factor / lattice geometry and the 3-character scanner shapes are left to C13 / C07 and to the thorough tier
+        if run.tier != 'thorough' and (re.search(r'C13/F/n\d/value/', oid) or oid.startswith('C13/geometry') or oid.startswith('C13/d/') or '/scanner/n3/' in oid): return False
+        return True
+    kept = frame.sweep(run, 'C03', keep=keep)
     run.parallel(frame.error_api(run, 'C03'))
     cov = frame.coverage(run, run.obs)
     unc = sorted(n for n, v in cov.items() if not v)
